@@ -293,8 +293,8 @@ Proof. repeat split; vm_compute; reflexivity. Qed.
 
 (* 2. A CLOCK THAT GOES BACKWARDS (tick_ok violated, back_ops of TsTheorems.v: "a" started in second 0, "b" in second 5, "c" in
       second 0 again): the file of "c" is listed behind the file of "b"; KLog 1 removes "c" although the older "b" survives.
-      rCURRENT is not affected: in contrast to TimestampsDirect naming (TsdCleanup.clock_backwards_current_removed) the
-      file that is being written is never listed. *)
+      rCURRENT is not affected: in contrast to TimestampsDirect naming (where the cleanup has to be told which of the
+      listed files is being written, TsdCleanup.clock_backwards_current_spared) the file that is being written is never listed. *)
 Example clock_backwards_newer_removed :
   sk_final KNever "log" back_ops
   = [ (bs "app_r1970-01-01_00-00-00.log", 0%N, bs "a"); (bs "app_r1970-01-01_00-00-00.restart-0000.log", 0%N, bs "c");
